@@ -89,6 +89,9 @@ func c18Types() []c18Type {
 	return ts
 }
 
+// c18ConcRaceQuickCases: cases of part conc-race in the quick tier (see the part list)
+const c18ConcRaceQuickCases = 0
+
 func c18JSONName(f reflect.StructField) string { return strings.Split(f.Tag.Get("json"), ",")[0] }
 
 func init() {
@@ -101,7 +104,10 @@ func init() {
 			"twelve command shapes per payload where the filter table has the selector/elements type; non-trivial if every shape that exists for the function was built, round-tripped and judged and at least one payload was not empty; distinct = (feature type, function, has selector type, has elements type). " +
 			"values: one case per (type, block) over every CmdType payload type, every selector and elements type of FilterType and the four frame types, 200 / 5000 generated values per type at 6 depths x 4 densities x 3 list lengths; non-trivial if at least 100 values were compared and a third of them were not empty; distinct = (kind, type, block). " +
 			"tagtable / fixtures / periods: fixed passes, non-trivial if they examined more than 200 fields / 10 fixtures / 400 periods. " +
-			"api: one case per feature type (NodeManagement excepted), 3 / 12 functions drawn per case (list functions with a key-covering selector first), every read form and every update form the function has; non-trivial if at least 6 datagrams were decoded from the connection and judged; distinct = (feature type, functions drawn).",
+			"api: one case per feature type (NodeManagement excepted), 3 / 12 functions drawn per case (list functions with a key-covering selector first), every read form and every update form the function has; non-trivial if at least 6 datagrams were decoded from the connection and judged; distinct = (feature type, functions drawn). " +
+			"Histories (c18_history.go). shapes: all commands of a payload are kept alive and encoded a second time together in one datagram after the last one was built (late/...), and between the payloads the API is called with arguments the function has no place for (foreign selector / elements of 8 kinds, judged for function and payload only), so that payloads 2.. of every function are judged behind that history. " +
+			"api: the same foreign argument through RequestRemoteData followed by the decided read forms again; filtered read and write commands of all drawn functions built first and then sent as ONE request through the stack's Sender; every notification the Sender remembers (DatagramForMsgCounter) encoded again at the end of the case. " +
+			"conc / conc-race: 4 / 96 and 0 / 32 cases of five goroutines (same function on two objects, one shared object, a third function) building filtered commands in lock step (all build four commands each, then all encode: 6 / 30 rounds) and free running (12 / 120 commands each); non-trivial if every command built was decoded and judged; distinct = the three functions.",
 		Assumptions: []string{
 			"equivalence is the statement's: nil and the empty list are identified; a TimePeriodType without start time may come back with its end time re-expressed against the clock (accepted window: the instants of marshal and unmarshal, measured around the calls, plus 2 s for the two roundings to the second)",
 			"relative end times are generated below 3000 days (beyond 3277 days the duration text is imprecise: known finding D27 of C19)",
@@ -110,6 +116,8 @@ func init() {
 			"a notify/write command that carries a filter names its function in cmd.function (SPINE requires it and a command whose payload is emptied by a delete filter is recognisable by nothing else); what filtered reads and partial replies carry there (\"\" on the unchanged tree) is recorded, not judged",
 			"the Go type behind every tagged CmdType / FilterType field is named <field name>+\"Type\" (1 pinned exception); filter fields are named after their function (no exception on the unchanged tree)",
 			"a delete selector/elements combined with partialWithoutSelector=true (what FeatureLocal.UpdateData passes for a pure delete) is not decided by the statement: whether the delete filter reaches the wire is counted (delete-with-partial-flag-drops-delete-filter), not judged; neither is the choice between a full and a bare partial notification for a filter-less UpdateData",
+			"a command is the caller's from the moment the API returns it: it may be encoded at any later time, together with other commands and by any goroutine, whatever else has been built in between (the statement names no moment); callers do not modify the selector / elements objects they handed over, and the function data is not updated while its commands are alive",
+			"arguments the function has no selectors / elements type for, and pointers of another type, are outside the quantifier: the commands built from them are judged for function, payload type and payload only, a panic of the API is counted (foreign_calls_that_panic), the fate of the argument is recorded (foreign-argument:filters_on_the_wire)",
 			"spelling conventions (json name = lower-camel Go field name, omitempty on every pointer and slice) are judged against the pinned exceptions of the unchanged tree (7 names, 13 fields); they are the only way to see a misspelt tag, which a round trip through one and the same struct cannot reveal",
 		},
 		Parts: []rig.Part{
@@ -129,6 +137,10 @@ func init() {
 				}
 				return len(c18APITypes())
 			}, Run: c18API},
+			{Name: "conc", Cases: func(t rig.Tier) int { return map[rig.Tier]int{rig.Quick: 4, rig.Thorough: 96}[t] }, Run: c18Conc, Procs: 8, Workers: 8, Chunk: 1},
+			// thorough tier only: a worker of the race binary costs one second of wall time whatever it does (GORACE's
+			// atexit_sleep_ms, default 1000, which rig/frame.go does not lower) - a third of this check's quick tier
+			{Name: "conc-race", Race: true, Cases: func(t rig.Tier) int { return map[rig.Tier]int{rig.Quick: c18ConcRaceQuickCases, rig.Thorough: 32}[t] }, Run: c18Conc, Procs: 8, Workers: 4, Chunk: 8},
 		},
 		Extra: func(agg *rig.Aggregate, cov map[string]any) {
 			judged := len(agg.Sets["pairs_judged"])
@@ -462,6 +474,10 @@ type c18Shape struct {
 	// observeDeleteDrop: a delete selector/elements together with partialWithoutSelector=true. The statement lists the
 	// notify/write shapes individually and does not decide this combination: the filters are counted, not judged
 	observeDeleteDrop bool
+	// foreign (c18_history.go): the call hands the API an argument the function has no place for (a selector for a function
+	// without selectors type, ...). The statement decides that the command is recognised as the function with its payload;
+	// what becomes of the argument is counted, not judged. These calls are the HISTORY in front of the judged shapes.
+	foreign string
 }
 
 func c18Kind(name string) string {
@@ -500,7 +516,7 @@ func c18Shapes(c *rig.Ctx) {
 	}
 	reps := c.Pick(3, 50)
 	var nonEmpty bool
-	var judged, expected int
+	var judged, expected, late, lateExpected, foreign int
 	var trace []string
 	// reply / notify built from function data that holds NOTHING (a fresh object, nothing stored yet): the function is
 	// recognised and the payload is the empty value of the registered type
@@ -622,18 +638,44 @@ func c18Shapes(c *rig.Ctx) {
 			add(c18Shape{name: "notify-delete+selector+elements,partial-flag", build: func() model.CmdType { return fd.NotifyOrWriteCmdType(s, nS, true, e) }, payload: true, observeDeleteDrop: true, delSel: s, delEl: e})
 		}
 		expected += len(shapes)
+		var held []*c18Held
 		for _, s := range shapes {
-			if c18OneShape(c, pr, T, selT, elT, dp, s, g) {
+			h, ok := c18OneShapeKeep(c, pr, T, selT, elT, dp, s, g)
+			if ok {
 				judged++
+			}
+			if h != nil {
+				held = append(held, h)
 			}
 			c.Count("shape:"+s.name, 1)
 			if rep == 0 {
 				trace = append(trace, s.name)
 			}
 		}
+		// the commands of this payload are all still alive: encode them once more, together, now that every other one
+		// has been built, and judge what a receiver gets (c18_history.go)
+		// (quick tier: for the dense first payload and the first typed-nil payload; thorough: every second payload)
+		if (c.Thorough() && rep%2 == 0) || rep < 2 {
+			lateExpected += len(held)
+			late += c18Late(c, "late", fmt.Sprintf("%s/%s", pr.FT, fn), held, g)
+		}
+		// history for the payloads that follow (and for every later case of this process): calls with arguments the
+		// function has no place for
+		if rep == reps-1 && rep > 0 && c.Index%4 != 0 {
+			continue // nothing of this case follows; every fourth case leaves the history to the cases behind it
+		}
+		n, tr := c18ForeignCalls(c, pr, fd, T, selT, elT, dp, rep, g)
+		foreign += n
+		if rep == 0 {
+			trace = append(trace, tr...)
+		}
 	}
+	c.Count("late_commands_judged", int64(late))
+	c.Count("foreign_calls", int64(foreign))
 	c.Count("shapes_run", int64(judged))
-	c.Events(int64(judged))
+	judged += late
+	expected += lateExpected
+	c.Events(int64(judged + foreign))
 	c.Shape(fmt.Sprintf("%s/%s/sel=%v/el=%v", pr.FT, fn, selT != nil, elT != nil))
 	c.NonTrivial(judged == expected && judged >= 5 && nonEmpty)
 	sel, el := "no selector type", "no elements type"
@@ -644,11 +686,23 @@ func c18Shapes(c *rig.Ctx) {
 		el = elT.Name()
 	}
 	c.Sample(map[string]any{"feature_type": pr.FT, "function": fn, "payload_type": T.Name(), "selector_type": sel, "elements_type": el, "shapes": trace, "payloads": reps, "roundtrips_judged": judged})
+	if c.Failed() {
+		c.Witness(map[string]any{"feature_type": pr.FT, "function": fn, "calls_per_payload_in_this_order": trace,
+			"history": "every payload: the shapes one by one (each encoded at once), then all of them again in one datagram (late/...), then the calls with foreign arguments; the next payload is judged behind that history"})
+	}
 }
 
 // c18OneShape builds, round-trips and judges one command; true if it was judged completely.
 func c18OneShape(c *rig.Ctx, pr c18Pair, T, selT, elT reflect.Type, dp any, s c18Shape, g *c18Gen) (done bool) {
+	_, done = c18OneShapeKeep(c, pr, T, selT, elT, dp, s, g)
+	return done
+}
+
+// c18OneShapeKeep is c18OneShape that also hands back the command as built (nil if the API panicked), so that the caller
+// can keep it alive while further commands are built and encode it again later (c18Late).
+func c18OneShapeKeep(c *rig.Ctx, pr c18Pair, T, selT, elT reflect.Type, dp any, s c18Shape, g *c18Gen) (held *c18Held, done bool) {
 	fn := pr.Fn.Fn
+	m0 := time.Now()
 	id := fmt.Sprintf("%s/%s %s", pr.FT, fn, s.name)
 	bad := func(dev, format string, a ...any) {
 		c.Violate("shape/"+s.name+"/"+dev, "%s: %s", id, fmt.Sprintf(format, a...))
@@ -667,14 +721,19 @@ func c18OneShape(c *rig.Ctx, pr c18Pair, T, selT, elT reflect.Type, dp any, s c1
 		built = true
 	}()
 	if !built {
-		return false
+		return nil, false
 	}
+	want := dp
+	if !s.payload {
+		want = reflect.New(T).Interface()
+	}
+	held = &c18Held{s: s, cmd: cmd, want: want, m0: m0, fn: fn, T: T, selT: selT, elT: elT, id: fmt.Sprintf("%s/%s", pr.FT, fn)}
 	hdr := g.val(reflect.TypeOf(model.HeaderType{}), 0).Interface().(model.HeaderType)
 	in := &model.Datagram{Datagram: model.DatagramType{Header: hdr, Payload: model.PayloadType{Cmd: []model.CmdType{cmd}}}}
 	outAny, js, eq, err := c18Roundtrip(in)
 	if err != nil {
 		bad("codec-error", "%v\n json=%s", err, c18Clip(js))
-		return false
+		return held, false
 	}
 	out := outAny.(*model.Datagram)
 	if d := eq.diff(reflect.ValueOf(hdr), reflect.ValueOf(out.Datagram.Header), "header"); d != "" {
@@ -682,7 +741,7 @@ func c18OneShape(c *rig.Ctx, pr c18Pair, T, selT, elT reflect.Type, dp any, s c1
 	}
 	if len(out.Datagram.Payload.Cmd) != 1 {
 		bad("cmd-count", "%d commands after the round trip\n json=%s", len(out.Datagram.Payload.Cmd), c18Clip(js))
-		return false
+		return held, false
 	}
 	oc := out.Datagram.Payload.Cmd[0]
 	// the element that carries the payload is named like the function
@@ -698,17 +757,13 @@ func c18OneShape(c *rig.Ctx, pr c18Pair, T, selT, elT reflect.Type, dp any, s c1
 	} else if _, ok := tree.Datagram.Payload.Cmd[0][string(fn)]; !ok {
 		bad("payload-element-not-named-like-function", "no element %q in the command\n json=%s", fn, c18Clip(js))
 	}
-	want := dp
-	if !s.payload {
-		want = reflect.New(T).Interface()
-	}
 	if !c18JudgeCmd(c, "shape", id, s, fn, T, selT, elT, want, oc, eq, js) {
-		return false
+		return held, false
 	}
 	if d := eq.diff(reflect.ValueOf(cmd), reflect.ValueOf(oc), "cmd"); d != "" {
 		bad("cmd-differs-after-roundtrip", "%s\n json=%s", d, c18Clip(js))
 	}
-	return true
+	return held, true
 }
 
 // c18JudgeCmd judges one decoded command against what was asked for (shape s, payload want); false if the function
@@ -757,6 +812,12 @@ func c18JudgeCmd(c *rig.Ctx, prefix, id string, s c18Shape, fn model.FunctionTyp
 		c.Seen("cmd.function_of_unfiltered_"+s.kind, fnField)
 	}
 	fp, fdl := oc.ExtractFilter()
+	if s.foreign != "" {
+		// not decided by the statement (there is no selectors / elements type the argument could come back as): counted
+		c.Count("foreign_calls_judged_for_function_and_payload", 1)
+		c.Seen("foreign-argument:filters_on_the_wire", fmt.Sprintf("%s partial=%v delete=%v filters=%d", s.kind, fp != nil, fdl != nil, len(oc.Filter)))
+		return true
+	}
 	if s.observeDeleteDrop {
 		// not decided by the statement: counted
 		what := "delete-with-partial-flag-keeps-delete-filter"
@@ -1398,6 +1459,7 @@ func c18API(c *rig.Ctx) {
 	}
 	judged := 0
 	var trace, names []string
+	var notifies []c18SentNotify
 
 	// one: run an API call, take what the stack wrote to the connection and judge the single command in it
 	one := func(f rig.FnInfo, s c18Shape, cl model.CmdClassifierType, src, dst *model.FeatureAddressType, want func() any, call func() (*model.MsgCounterType, *model.ErrorType)) {
@@ -1412,6 +1474,12 @@ func c18API(c *rig.Ctx) {
 		var mc *model.MsgCounterType
 		var err *model.ErrorType
 		ok, pan := rig.Guard(20*time.Second, func() { mc, err = call() })
+		if pan != "" && s.foreign != "" {
+			// an argument outside the quantifier: a panic is not this property's; it stays part of the history
+			c.Count("foreign_calls_that_panic", 1)
+			c.Seen("foreign_calls_that_panic", "api:"+s.name+" <- "+s.foreign)
+			return
+		}
 		if pan != "" {
 			bad("api-panics", "the call panics: %s\n sel=%s el=%s delSel=%s delEl=%s", pan, rig.JS(s.sel), rig.JS(s.el), rig.JS(s.delSel), rig.JS(s.delEl))
 			return
@@ -1441,8 +1509,12 @@ func c18API(c *rig.Ctx) {
 			bad("header", "classifier/addresses/counter of the datagram differ from the call: %s (want %s from %s to %s, counter %s)", rig.JS(h), cl, rig.JS(src), rig.JS(dst), rig.JS(mc))
 		}
 		oc := outs[0].Payload.Cmd[0]
-		if c18JudgeCmd(c, "api", id, s, fn, f.T, selT, elT, want(), oc, eq, []byte(rig.JS(oc))) {
+		wv := want()
+		if c18JudgeCmd(c, "api", id, s, fn, f.T, selT, elT, wv, oc, eq, []byte(rig.JS(oc))) {
 			judged++
+		}
+		if cl == model.CmdClassifierTypeNotify && h.MsgCounter != nil {
+			notifies = append(notifies, c18SentNotify{ctr: *h.MsgCounter, h: &c18Held{s: s, want: wv, m0: m0, fn: fn, T: f.T, selT: selT, elT: elT, id: fmt.Sprintf("%s/%s", FT, fn)}})
 		}
 		trace = append(trace, string(fn)+" "+s.name)
 	}
@@ -1489,15 +1561,53 @@ func c18API(c *rig.Ctx) {
 				return cli.RequestRemoteData(fn, sa, ea, rf)
 			})
 		}
+		// the Sender does not write a request that equals an unanswered one a second time: repeated forms carry fresh values
+		sentReads := map[string]bool{}
+		fresh := func(t reflect.Type) any {
+			if t == nil {
+				return nil
+			}
+			var v any
+			for try := 0; try < 12; try++ {
+				if v = mk(t); !sentReads[rig.JS(v)] {
+					break
+				}
+			}
+			if v == nil || sentReads[rig.JS(v)] {
+				return nil
+			}
+			sentReads[rig.JS(v)] = true
+			return v
+		}
 		read("request", nil, nil)
-		if selT != nil {
-			read("request+selector", mk(selT), nil)
+		if s := fresh(selT); s != nil {
+			read("request+selector", s, nil)
 		}
-		if elT != nil {
-			read("request+elements", nil, mk(elT))
+		if e := fresh(elT); e != nil {
+			read("request+elements", nil, e)
 		}
-		if selT != nil && elT != nil {
-			read("request+selector+elements", mk(selT), mk(elT))
+		if s, e := fresh(selT), fresh(elT); s != nil && e != nil {
+			read("request+selector+elements", s, e)
+		}
+		// history: the caller hands over an argument the function has no place for (judged for function and payload only),
+		// then every read form the statement decides once more
+		fargs := c18ForeignArgs(c.Rand, f.T, selT, elT, nil)
+		fa := fargs[(fi+c.Index)%len(fargs)]
+		if (selT == nil && !c18IsType(fa.v, elT)) || (selT != nil && elT == nil && !c18IsType(fa.v, selT)) {
+			name, sa, ea := "request+foreign-selector", fa.v, any(nil)
+			if selT != nil {
+				name, sa, ea = "request+foreign-elements", nil, fa.v
+			}
+			c.Seen("foreign_argument_kinds", fa.kind)
+			one(f, c18Shape{name: name, kind: "read", foreign: fa.kind}, model.CmdClassifierTypeRead, cli.Address(), peerServer, emptyOf(f), func() (*model.MsgCounterType, *model.ErrorType) {
+				return cli.RequestRemoteData(fn, sa, ea, rf)
+			})
+			if e := fresh(elT); e != nil {
+				read("request+elements@after-foreign-argument", nil, e)
+			}
+			if s := fresh(selT); s != nil {
+				read("request+selector@after-foreign-argument", s, nil)
+			}
 		}
 		update := func(s c18Shape, data any, fp, fdl *model.FilterType) {
 			s.kind, s.payload = "notify", true
@@ -1554,6 +1664,8 @@ func c18API(c *rig.Ctx) {
 		}
 		update(c18Shape{name: "updatedata", partialOptional: true}, li.MkList(items4(li, c.Rand)), nil, nil)
 	}
+	judged += c18APIBatch(c, FT, fns, cli, peerServer, rf, p)
+	judged += c18APINotifyCache(c, rf.Device().Sender(), notifies)
 	if len(p.Tap.Broken) > 0 {
 		c.Violate("api/undecodable-datagram", "%s: %d datagram(s) written by the stack do not decode: %s", FT, len(p.Tap.Broken), c18Clip([]byte(p.Tap.Broken[0])))
 	}
